@@ -183,6 +183,11 @@ func vRunLookup(t *testing.T, c *vh.Case, sc vLkScenario) *vLkResult {
 	defer n.Close()
 	if sc.KeyPeer > 0 && len(n.IDs) > 0 {
 		sc.Key = string(n.IDs[(sc.KeyPeer-1)%len(n.IDs)])
+		if sc.KeyPeer%4 == 0 {
+			// a lookup for the node's own id (what a bootstrap / self-refresh does): the node itself is at distance 0 and
+			// must still never be returned
+			sc.Key = string(n.Self)
+		}
 		res.sc = sc
 		c.Set("key_is_peer", n.Name(peer.ID(sc.Key)))
 	}
